@@ -664,6 +664,9 @@ func (r *Run) execLib(op *OpDesc, c *Call) []*Violation {
 
 	if r.armed("C19") {
 		r.record(op, c, pre, ops, &out, post)
+		// constructors must keep returning identity / base point / zero after
+		// every library call, not only after mutations of returned values
+		vs = append(vs, r.anchors("after "+op.Name)...)
 	}
 	r.logStepPost(op, c, &out, pre, post)
 	r.probes(op, c, pre, post)
